@@ -43,3 +43,5 @@ CLS = 'the class predicate closure is a total deterministic function of (class i
 reg('C05', ['u_dfa'], 'find_post: the reported (length, token type) is one candidate with satisfied lookahead that is no_better-maximal in extent = own bytes + longest positive-lookahead match, ties by first position in terminal_ids; all unwrap/index/overflow obligations of find_from, priority_of, satisfies_lookahead', [WF, CLS])
 
 reg('C06', ['u_mode'], 'mode after every operation is the function of (old mode, token type, transition list) the property states: has_transition == lookup in the sorted list; find_from switches, peek_from/has_transition/current_mode do not, set_mode sets, reset gives 0', [WF, 'set_mode(m) is called with m < number of modes (documented precondition)'])
+
+reg('C10', ['u_iter'], 'WORK IN PROGRESS', [WF])
